@@ -1,4 +1,5 @@
 import Clikit.Lemmas.Dispatcher
+import Clikit.Lemmas.DispatcherOnce
 /-!
 # C12 - listeners run by priority then registration order until propagation stops
 
@@ -343,6 +344,61 @@ theorem run_eq_specRun (ops : List Op) (hd : ops.all determined = true) :
   obtain ⟨s, outs, h1, _, h3⟩ := run_refines_spec ops
   exact ⟨s, by rw [h1, agreesAll_eq_specRun ops [] outs hd h3]⟩
 
+/-! ## Hypotheses discharged: reachable states, callables registered once
+
+`cache_inv` / `buckets_inv` speak about a state reached by a history; `no_error` shows every
+history reaches one, the corollary below combines the two.  "Each callable is registered at most
+once per event" (the assumption under which the correspondence generates histories) is decided
+by `regOnceB` (`Model/Dispatcher.lean`); the driver evaluates it on the log of every generated
+history (`c12.run`, field `wf`) and the correspondence compares it with what the history says. -/
+
+/-- (a), unconditionally: every history reaches a state, and in that state every cache entry is
+the specification order of the registrations so far. -/
+theorem cache_inv_total (ops : List Op) :
+    ∃ s outs, run init ops = .ok (s, outs) ∧
+      ∀ e c, dictGet? e s.sorted = some c →
+        c = (specOrder (logOf ops) e).map (fun r => r.l) ∧ dictHas e s.listeners = true := by
+  obtain ⟨s, outs, h, _⟩ := no_error ops
+  exact ⟨s, outs, h, fun e c hc => cache_inv ops s outs h e c hc⟩
+
+/-- `regOnceB` decides "no listener is registered twice for one event" -/
+theorem reg_once_decides (log : List Reg) :
+    regOnceB log = true ↔ log.Pairwise (fun a b => ¬(a.ev = b.ev ∧ a.l = b.l)) :=
+  regOnceB_iff log
+
+/-- When every callable was registered at most once per event (decided by `regOnceB`), a dispatch
+calls each LISTENER at most once, and only listeners registered for this event. -/
+theorem dispatch_each_once_decided (pre : List Op) (e : Nat) (st : Bool) (post : List Op)
+    (h : regOnceB (logOf pre) = true) :
+    ∃ s outs called fl, run init (pre ++ .dispatch e st :: post) = .ok (s, outs) ∧
+      outs[pre.length]? = some (.called called fl) ∧ called.Nodup ∧
+      ∀ l ∈ called, ∃ p, (⟨e, p, l⟩ : Reg) ∈ logOf pre := by
+  obtain ⟨s, outs, h1, h2⟩ := dispatch_spec pre e st post
+  refine ⟨s, outs, _, _, h1, h2, ?_, ?_⟩
+  · have hn := ((regOnceB_iff _).1 h).nodup_listeners e
+    have hp : ((specOrder (logOf pre) e).map (fun r => r.l)).Perm ((regsFor (logOf pre) e).map (fun r => r.l)) :=
+      (specOrder_perm (logOf pre) e).map _
+    exact List.Nodup.sublist ((callSeq_sublist (logOf pre) e st).map _) (hp.nodup_iff.2 hn)
+  · intro l hl
+    obtain ⟨r, hr, rfl⟩ := List.mem_map.1 hl
+    obtain ⟨hm, he⟩ := (callSeq_each_once (logOf pre) e st).2.1 r hr
+    refine ⟨r.prio, ?_⟩
+    obtain ⟨re, rp, rl⟩ := r
+    simp only at he
+    subst he
+    exact hm
+
+/-- ... and `get_listener_priority(e, l)` is THE priority `l` was registered with for `e`
+(`query_get_priority_unique` with its uniqueness hypothesis decided). -/
+theorem query_get_priority_decided (pre : List Op) (e : Nat) (l : Listener) (p : Int) (post : List Op)
+    (h : regOnceB (logOf pre) = true) (hreg : (⟨e, p, l⟩ : Reg) ∈ logOf pre) :
+    ∃ s outs, run init (pre ++ .getPriority e l :: post) = .ok (s, outs) ∧
+      outs[pre.length]? = some (.prio (some p)) := by
+  refine query_get_priority_unique pre e l p post hreg ?_
+  intro q hq
+  have := ((regOnceB_iff _).1 h).unique hq hreg rfl rfl
+  exact congrArg Reg.prio this
+
 /-! ## Non-vacuity -/
 
 private def la : Listener := ⟨0, false⟩
@@ -382,5 +438,46 @@ example : ∃ s, run init [.add 0 la 0, .add 0 lb 5, .add 0 lc 5, .add 0 ld 5, .
     = .ok (s, [.unit, .unit, .unit, .unit, .called [lb] true, .called [] true,
                .list [lb, lc, ld, la], .bool false, .bool true]) :=
   run_eq_specRun _ (by decide)
+
+/-! ### every hypothesis of the theorems above is satisfiable (instances through the theorems) -/
+
+private def exLog : List Reg := [⟨0, 0, la⟩, ⟨0, 5, lc⟩, ⟨1, 9, ld⟩, ⟨0, 5, lb⟩, ⟨0, -1, ld⟩]
+
+/-- `specOrder_unique`: a list that is sorted and stable IS the specification order -/
+example : [⟨0, 5, lc⟩, ⟨0, 5, lb⟩, ⟨0, 0, la⟩, ⟨0, -1, ld⟩] = specOrder exLog 0 := by
+  refine specOrder_unique exLog 0 _ (by decide) ?_
+  intro p
+  have h := specOrder_stable exLog 0 p
+  rw [show specOrder exLog 0 = [⟨0, 5, lc⟩, ⟨0, 5, lb⟩, ⟨0, 0, la⟩, ⟨0, -1, ld⟩] by decide] at h
+  exact h
+
+/-- `callSeq_all`: nobody registered for event 1 stops propagation -/
+example : callSeq exLog 1 false = specOrder exLog 1 :=
+  callSeq_all exLog 1 (by decide)
+
+/-- `callSeq_each_once`: a log without repeated registrations -/
+example : (callSeq exLog 0 false).Nodup := (callSeq_each_once exLog 0 false).2.2 (by decide)
+
+/-- `cache_inv` / `buckets_inv`: the state a history reaches (`no_error`), after a dispatch filled
+the cache -/
+example : ∃ s outs, run init [.add 0 la 0, .add 0 lc 7, .dispatch 0 false] = .ok (s, outs) ∧
+    ∀ c, dictGet? 0 s.sorted = some c → c = [lc, la] := by
+  obtain ⟨s, outs, h, _⟩ := no_error [.add 0 la 0, .add 0 lc 7, .dispatch 0 false]
+  refine ⟨s, outs, h, fun c hc => ?_⟩
+  rw [(cache_inv _ s outs h 0 c hc).1]
+  decide
+
+/-- `pure_queries`: a query step -/
+example : ∀ s' o, step init (.hasListeners (some 3)) = .ok (s', o) → s' = init :=
+  fun s' o h => pure_queries init _ s' o (Or.inl ⟨_, rfl⟩) h
+
+/-- the decider accepts a history in which every callable is registered once per event (the same
+callable for two events is fine), and rejects a double registration -/
+example : regOnceB exLog = true ∧ regOnceB [⟨0, 0, la⟩, ⟨0, 5, la⟩] = false := by decide
+
+/-- `dispatch_each_once_decided` / `query_get_priority_decided` apply -/
+example : ∃ s outs, run init [.add 0 la 3, .add 1 la 4, .add 0 lc 3, .getPriority 0 la] = .ok (s, outs) ∧
+    outs[3]? = some (.prio (some 3)) :=
+  query_get_priority_decided [.add 0 la 3, .add 1 la 4, .add 0 lc 3] 0 la 3 [] (by decide) (by decide)
 
 end Clikit.Props.C12
